@@ -109,3 +109,23 @@ Proof.
   eapply (r_elem SpBuiltin TList _ _ _ (VStr [120])); try reflexivity; [right; now left|].
   apply r_here.
 Qed.
+
+(* ---- the region WITHOUT an oracle (`conforms = Unspec`), stated so that it is not mistaken for coverage ---------------
+   The property text decides Callable only by example ("simple Callable signatures") and Literal by "membership".  The
+   specification therefore says Must for an exact class-for-class signature, MustNot for a non-callable, an arity
+   mismatch, an unrelated parameter class or a result class that is not a subclass; in between (a parameter class that is
+   a sub- or superclass of the expected one, lambdas, builtins, classes, coroutine functions, unannotated parameters) and
+   for a Literal member that is equal but of another class (True / 1.0 under Literal[1]) it says nothing, and C01 / C02
+   do not constrain the checker there.  What the checker DOES there is pinned by the correspondence of every run and by
+   the following observations of the model (parameters are compared covariantly: a function declared for bool is
+   accepted where Callable[[int], int] is asked, one declared for object is rejected; Literal uses ==). *)
+Definition f_bool_int : value := VFun {| fs_params := [(Some (Some CBool), false)]; fs_ret := Some (Some CInt); fs_coroutine := false |}.
+Definition f_obj_int : value := VFun {| fs_params := [(Some (Some CObject), false)]; fs_ret := Some (Some CInt); fs_coroutine := false |}.
+Theorem C01_unspecified_region_observation :
+  let cb := ACallable (Some [ACls CInt]) (ACls CInt) in
+  conforms (fun _ => None) cb f_bool_int = Unspec /\ fst (assert_matches1 cfg (fun _ => None) cb f_bool_int []) = Ok tt /\
+  conforms (fun _ => None) cb f_obj_int = Unspec /\ fst (assert_matches1 cfg (fun _ => None) cb f_obj_int []) = Raise PTypeCheckC /\
+  conforms (fun _ => None) (ALiteral [VInt 1]) (VBool true) = Unspec /\
+  fst (assert_matches1 cfg (fun _ => None) (ALiteral [VInt 1]) (VBool true) []) = Ok tt.
+Proof. cbn zeta. repeat split; vm_compute; reflexivity. Qed.
+Print Assumptions C01_unspecified_region_observation.
